@@ -5,8 +5,8 @@ import datetime as dt
 
 ID = "C20"
 BACKENDS = ("py", "rs")          # Time.add runs through DateTime.add -> helpers.add_duration (is_leap of the backend)
-GEN_MODULES = ()
-MIN_THEOREMS = 16
+GEN_MODULES = ("TimeOfDay",)
+MIN_THEOREMS = 27
 RULE = ("ops: tadd/tsub/tinv = Time.add/subtract/(add then subtract) with integer (h, m, s, us) of either sign, drawn "
         "per component from carry thresholds (59/60/61, 23/24/25, 999999/10^6/10^6+1), whole-day multiples, random "
         "magnitudes up to several days and cancelling mixtures, plus a few amounts that overflow the carrier date; taddf/tsubf = the same "
@@ -21,6 +21,10 @@ EXHAUSTIVE = {"quick": False, "thorough": False}
 TRUSTED = [
     "Model/TimeOfDay.lean is a hand model of src/pendulum/time.py (add/subtract through DateTime.EPOCH.at().add().time() with the "
     "carry code of helpers.add_duration; add_timedelta/subtract_timedelta/__add__/__sub__/__rsub__; diff; closest/farthest), tied by this correspondence run",
+    "Gen/TimeOfDay.lean is regenerated from time.py by tools/gen_time.py on every run (diff, closest/farthest, the timedelta guards, "
+    "operator dispatch per operand kind, the shape of add/subtract over the carrier) and proved equal to the model (*_source_eq_model); "
+    "trusted there: the translator's reading of Python (isinstance over Time < time, timedelta; int truthiness; keyword binding), "
+    "DateTime.add on the carrier (parameter dtAdd, hypothesis DtAddOk = the model's add) and total_seconds() of the two Duration classes (klassUs)",
     "datetime + timedelta on 1970-01-01T..Z and the years 1..9999 range check are the standard library's (modelled, not verified)",
     "the microsecond total of the returned Duration is read back from its components and from total_seconds(); both must agree",
     "oracle = integer arithmetic modulo 86_400_000_000 in this file (no pendulum, no datetime arithmetic)",
